@@ -96,3 +96,10 @@ check(
     "Wrapped models are stubs (affine fitted state, polynomial outputs); real scikit-learn models are outside. 1-2 rows, <= 3 members.",
     "DESIGN.md 3.C15",
 )
+check(
+    "C18",
+    "bounded symbolic execution (SX, z3 NRA+UF) of non_linear_correlations (array and frame branches) with arbitrary symbolic test-fold predictions, and of comparable_metric/r2_score_comparable with an uninterpreted metric and uninterpreted log/exp",
+    "For (variables, rows, draws) up to (2,4,2)/(3,4,1) and minmax on/off: the result is square with one row/column per variable, every entry (and min/max) lies in [0,1] whatever the learner predicts, min <= mean <= max entrywise, the frame result equals the array result term by term and keeps its labels, the diagonal is 1 for the identity learner, the input cells are not written. r2_score_comparable(y,p,tr=f,inv_tr=g) hands exactly f(y), g(p) and the keyword arguments to r2_score for every pair among None/'log'/'exp'/callables, raises ValueError iff both are None and TypeError for non-callables.",
+    "scale/train_test_split/learner/r2_score are stubs; numpy.var is over-approximated by an arbitrary non-negative real unless it is a number; the DataFrame branch runs on a minimal frame model; float round-off outside.",
+    "DESIGN.md 3.C18",
+)
